@@ -28,6 +28,7 @@ ASSUMPTIONS = ['only completion orders are controlled, not preemption points ins
 
 DELAYS = {}       # task id -> seconds; set before every parallel call (inherited by forked workers)
 FAIL_ID = [None]
+FAIL_KIND = [ValueError]   # the class the designated task fails with (the *_except forms silence ValueError only)
 DONE = []         # completion log (thread mode only)
 _LOCK = threading.Lock()
 
@@ -72,7 +73,7 @@ def task(*args):
     if d:
         time.sleep(d)
     if FAIL_ID[0] is not None and i == FAIL_ID[0]:
-        raise ValueError('task %d fails' % i)
+        raise FAIL_KIND[0]('task %d fails' % i)
     r = _digest(x)
     with _LOCK:
         DONE.append(i)
@@ -86,7 +87,7 @@ def task_frame(f):
     if d:
         time.sleep(d)
     if FAIL_ID[0] is not None and i == FAIL_ID[0]:
-        raise ValueError('task %d fails' % i)
+        raise FAIL_KIND[0]('task %d fails' % i)
     with _LOCK:
         DONE.append(i)
     return f.sum()
@@ -111,7 +112,8 @@ def cases(draw, processes_share=0.12):
     n = draw(st.sampled_from([5, 3, 7, 4, 2, 6, 8, 1]))
     ch = {'workers': draw(st.sampled_from([3, 2, 1, 4, 7, 8, 5, 6])), 'chunksize': draw(st.sampled_from([c for c in (2, 1, 3, n, n + 1, 4) if c <= n + 1])),
           'fail': draw(st.one_of(st.none(), st.none(), st.integers(0, n - 1))), 'step_ms': draw(st.sampled_from([2, 3, 4])),
-          'batch_op': draw(st.sampled_from(['apply', 'apply_except', 'apply_items', 'sum', 'apply_items_except', 'iloc'])), 'fmt': draw(st.sampled_from(['zip_pickle', 'zip_csv']))}
+          'batch_op': draw(st.sampled_from(['apply', 'apply_except', 'apply_items', 'sum', 'apply_items_except', 'iloc'])), 'fmt': draw(st.sampled_from(['zip_pickle', 'zip_csv'])),
+          'fail_kind': draw(st.sampled_from(['ValueError', 'KeyError', 'ValueError', 'ZeroDivisionError']))}
     return dict({'what': what, 'iface': iface, 'akw': akw, 'n': n, 'perm': draw(st.permutations(list(range(n)))), 'threads': use_threads}, **ch)
 
 
@@ -172,6 +174,9 @@ def check(case):
     what = case['what']
     n = case['n']
     classes = ['what:' + what, 'threads' if case['threads'] else 'processes', 'workers:%d' % case['workers']]
+    FAIL_KIND[0] = {'KeyError': KeyError, 'ZeroDivisionError': ZeroDivisionError}.get(case.get('fail_kind'), ValueError)
+    if case['fail'] is not None:
+        classes.append('fails-with:' + FAIL_KIND[0].__name__)
     try:
         if what == 'iter':
             classes.append('iface:' + case['iface'])
